@@ -103,6 +103,51 @@ def unquoteMbox (m : Str) : Except UnquoteErr Str :=
 /-- `address.IsASCII`. -/
 def isASCII (s : Str) : Bool := s.all (fun c => c < 128)
 
+/-! ### Go strings are BYTE strings: `for _, ch := range s` over arbitrary bytes
+
+`decodeUtf8` mirrors Go's range-over-string decoding (`utf8.DecodeRuneInString` applied repeatedly):
+a well-formed sequence yields its code point, every byte that does not start one (lone continuation
+bytes, 0xC0/0xC1/0xF5..0xFF, overlong forms, surrogates, values above U+10FFFF, truncated sequences)
+yields U+FFFD and is skipped alone (width 1). -/
+
+def isCont (b : Nat) : Bool := 0x80 ≤ b && b ≤ 0xBF
+
+/-- `utf8.DecodeRuneInString` on a non-empty byte list: `(rune, width)`. -/
+def decodeOne : List Nat → Nat × Nat
+  | [] => (0xFFFD, 1)
+  | b0 :: r =>
+    if b0 < 0x80 then (b0, 1)
+    else if 0xC2 ≤ b0 && b0 ≤ 0xDF then
+      match r with
+      | b1 :: _ => if isCont b1 then ((b0 - 0xC0) * 64 + (b1 - 0x80), 2) else (0xFFFD, 1)
+      | _ => (0xFFFD, 1)
+    else if 0xE0 ≤ b0 && b0 ≤ 0xEF then
+      match r with
+      | b1 :: b2 :: _ =>
+        if (if b0 == 0xE0 then 0xA0 else 0x80) ≤ b1 && b1 ≤ (if b0 == 0xED then 0x9F else 0xBF) && isCont b2
+        then ((b0 - 0xE0) * 4096 + (b1 - 0x80) * 64 + (b2 - 0x80), 3) else (0xFFFD, 1)
+      | _ => (0xFFFD, 1)
+    else if 0xF0 ≤ b0 && b0 ≤ 0xF4 then
+      match r with
+      | b1 :: b2 :: b3 :: _ =>
+        if (if b0 == 0xF0 then 0x90 else 0x80) ≤ b1 && b1 ≤ (if b0 == 0xF4 then 0x8F else 0xBF) && isCont b2 && isCont b3
+        then ((b0 - 0xF0) * 262144 + (b1 - 0x80) * 4096 + (b2 - 0x80) * 64 + (b3 - 0x80), 4) else (0xFFFD, 1)
+      | _ => (0xFFFD, 1)
+    else (0xFFFD, 1)
+
+def decodeFuel : Nat → List Nat → Str
+  | 0, _ => []
+  | _, [] => []
+  | n + 1, b :: r =>
+    let p := decodeOne (b :: r)
+    p.1 :: decodeFuel n ((b :: r).drop p.2)
+
+/-- the code points Go's `range` yields for the byte string `bs` -/
+def decodeUtf8 (bs : List Nat) : Str := decodeFuel bs.length bs
+
+/-- `address.IsASCII` on the bytes of a Go string. -/
+def isASCIIBytes (bs : List Nat) : Bool := isASCII (decodeUtf8 bs)
+
 /-- `address.ToASCII`: `(result, ok)`. -/
 def toASCII (P : Prims) (a : Str) : Str × Bool :=
   match split a with
